@@ -239,3 +239,143 @@ Fixpoint all_effs (c : cfg) (s : state) (ops : list op) : list eff :=
 
 Definition crash_power (c : cfg) (ops : list op) (n : nat) (l : loss) : dir :=
   pview (papply_all pfs_empty (firstn n (init_effs ++ all_effs c (init c) ops))) l.
+
+(* ------------------------------------------------------------------------------------------ *)
+(* Executable oracles over a whole history (used by the correspondence and by examples)       *)
+(* ------------------------------------------------------------------------------------------ *)
+
+Definition total_effs (c : cfg) (ops : list op) : nat := length (init_effs ++ all_effs c (init c) ops).
+
+Definition store_in_point (p : crash_point) (r : sresult) : bool :=
+  match r with
+  | SOk s => store_eqb (st_store s) (cp_acked p) || store_eqb (st_store s) (cp_inflight p)
+  | SErr _ => false
+  end.
+
+(* crash indices (and torn flag) at which the kill model violates the oracle outside the known class *)
+Definition kill_bad (c : cfg) (ops : list op) : list (nat * bool) :=
+  flat_map (fun n =>
+              if known_c01 c ops n then []
+              else filter (fun nt => negb (store_in_point (crash_hist c ops n (snd nt))
+                                                          (start c (cp_dir (crash_hist c ops n (snd nt))))))
+                          [(n, false); (n, true)])
+           (seq 0 (S (total_effs c ops))).
+
+Definition losses4 : list loss := [loss_all; loss_data; loss_dir; loss_none].
+
+(* (crash index, index of the loss choice in losses4) at which the power-loss model violates the oracle *)
+Definition power_bad (c : cfg) (ops : list op) : list (nat * nat) :=
+  flat_map (fun n =>
+              if known_c01 c ops n then []
+              else flat_map (fun il : nat * loss =>
+                               if store_in_point (crash_hist c ops n false) (start c (crash_power c ops n (snd il)))
+                               then [] else [(n, fst il)])
+                            (combine (seq 0 4) losses4))
+           (seq 0 (S (total_effs c ops))).
+
+(* ------------------------------------------------------------------------------------------ *)
+(* Equality of effects (the C01 correspondence compares the model's effect list of every        *)
+(* operation with the abstracted trace of the real engine)                                      *)
+(* ------------------------------------------------------------------------------------------ *)
+
+Definition opt_eqb {A} (eqb : A -> A -> bool) (a b : option A) : bool :=
+  match a, b with
+  | None, None => true
+  | Some x, Some y => eqb x y
+  | _, _ => false
+  end.
+
+Definition walop_eqb (a b : walop) : bool :=
+  match a, b with Ins, Ins | Del, Del | Upd, Upd => true | _, _ => false end.
+
+Definition entry_eqb (a b : entry) : bool :=
+  walop_eqb (e_op a) (e_op b) && N.eqb (e_id a) (e_id b) && vec_eqb (e_vec a) (e_vec b)
+  && meta_eqb (e_meta a) (e_meta b) && N.eqb (e_seq a) (e_seq b).
+
+Definition frame_eqb (a b : frame) : bool :=
+  match a, b with
+  | Good x, Good y => entry_eqb x y
+  | BadCrc, BadCrc | BadDeser, BadDeser => true
+  | _, _ => false
+  end.
+
+Definition tail_eqb (a b : tail) : bool :=
+  match a, b with Clean, Clean | Torn, Torn | BadLen, BadLen => true | _, _ => false end.
+
+Definition metric_eqb (a b : metric) : bool :=
+  match a, b with
+  | Euclidean, Euclidean | Cosine, Cosine | InnerProduct, InnerProduct => true
+  | _, _ => false
+  end.
+
+Definition manifest_eqb (a b : manifest) : bool :=
+  opt_eqb name_eqb (m_snapshot a) (m_snapshot b) && opt_eqb N.eqb (m_snapshot_seq a) (m_snapshot_seq b)
+  && list_eqb name_eqb (m_segments a) (m_segments b).
+
+(* snapshot documents are compared as a set of bindings given in ascending id order (the code writes them
+   in slot order; the harness sorts them) *)
+Definition snapshot_eqb (a b : snapshot) : bool :=
+  N.eqb (sn_dim a) (sn_dim b) && metric_eqb (sn_metric a) (sn_metric b)
+  && store_eqb (sn_docs a) (sn_docs b) && N.eqb (sn_last_seq a) (sn_last_seq b).
+
+Definition file_eqb (a b : file) : bool :=
+  match a, b with
+  | FEmpty, FEmpty | FBad, FBad => true
+  | FWal f1 t1, FWal f2 t2 => list_eqb frame_eqb f1 f2 && tail_eqb t1 t2
+  | FSnap s1, FSnap s2 => snapshot_eqb s1 s2
+  | FManifest m1, FManifest m2 => manifest_eqb m1 m2
+  | _, _ => false
+  end.
+
+Definition blob_eqb (a b : blob) : bool :=
+  match a, b with
+  | BHeader, BHeader => true
+  | BFrame x, BFrame y => frame_eqb x y
+  | _, _ => false
+  end.
+
+Definition eff_eqb (a b : eff) : bool :=
+  match a, b with
+  | ECreate f t, ECreate g u => name_eqb f g && Bool.eqb t u
+  | EAppend f x, EAppend g y => name_eqb f g && blob_eqb x y
+  | ETrunc f n, ETrunc g k => name_eqb f g && N.eqb n k
+  | EFsync f, EFsync g | EFsyncData f, EFsyncData g | EUnlink f, EUnlink g => name_eqb f g
+  | ERename a1 b1, ERename a2 b2 => name_eqb a1 a2 && name_eqb b1 b2
+  | EFsyncDir, EFsyncDir => true
+  | EWriteFile f x, EWriteFile g y => name_eqb f g && file_eqb x y
+  | _, _ => false
+  end.
+
+(* index of the first operation whose effect list differs from the observed one (None = all agree);
+   the observed list of the first start-up is compared with init_effs by the caller *)
+Fixpoint effs_mismatch (c : cfg) (s : state) (ops : list op) (obs : list (list eff)) (i : N) : option N :=
+  match ops, obs with
+  | [], [] => None
+  | o :: ops', e :: obs' =>
+      let '(s', _, effs) := step c s o in
+      if list_eqb eff_eqb effs e then effs_mismatch c s' ops' obs' (i + 1) else Some i
+  | _, _ => Some i
+  end.
+
+(* observed start-ups on crash states: (global effect index, torn, recovered census or None = refused) *)
+Definition start_mismatch (c : cfg) (ops : list op) (obs : list (nat * bool * option store)) : list nat :=
+  flat_map (fun o : nat * bool * option store =>
+              let '(n, torn, cen) := o in
+              match start c (cp_dir (crash_hist c ops n torn)), cen with
+              | SOk s, Some x => if store_eqb (st_store s) x then [] else [n]
+              | SErr _, None => []
+              | _, _ => [n]
+              end) obs.
+
+(* everything the C01 correspondence checks for one history (`oracles` = also evaluate the model's own
+   kill / power-loss oracles at every crash index — quadratic, done for a subset in the quick tier):
+   (first op with a different effect list (0 = first start-up, i+1 = ops[i]), crash points whose start-up
+   differs, kill-model oracle violations outside the known class, power-model ones (fsync-always only)) *)
+Definition check_c01 (oracles : bool) (c : cfg) (ops : list op) (obs0 : list eff) (obs : list (list eff))
+  (starts : list (nat * bool * option store)) : option N * list nat * list (nat * bool) * list (nat * nat) :=
+  (if list_eqb eff_eqb init_effs obs0
+   then match effs_mismatch c (init c) ops obs 1 with Some i => Some i | None => None end
+   else Some 0,
+   start_mismatch c ops starts,
+   (if oracles then kill_bad c ops else []),
+   (if oracles then match c_fsync c with FsAlways => power_bad c ops | _ => [] end else [])).
